@@ -39,7 +39,7 @@ Init ==
     /\ \A i \in 1..Len(iv) : IF PicksOf(iv[i]) = {} THEN pk[i] = NoPick /\ sc[i] = 0
                                                      ELSE pk[i] \in PicksOf(iv[i])
     /\ thr2 \in Thr2s
-    /\ (SumOver([i \in 1..Len(iv) |-> sc[i] * i + Code(iv[i])], 1..Len(iv)) + thr2) % NSlices = Slice
+    /\ (SumOver([i \in 1..Len(iv) |-> sc[i] * (37 * i * i + 101) + 13 * Code(iv[i]) * i], 1..Len(iv)) + 331 * thr2) % NSlices = Slice
     /\ work = sc /\ picks = <<>> /\ pc = "loop"
 
 HitsCode(c, p) ==
